@@ -635,6 +635,36 @@ impl Sim {
         None
     }
 
+    /// "Idle with a releasable connection": the epoll descriptor is not readable (a caller that polls on
+    /// readiness will not call the server again until something new happens), yet the server still holds the
+    /// socket of a client that has left (closed, or shut down its sending side) and to which nothing is owed
+    /// any more. "Released as soon as the application has answered" cannot happen any more without an
+    /// unrelated event. Both observations are the kernel's; nothing runs in between.
+    pub fn idle_with_releasable_connection(&self) -> Option<String> {
+        if self.ready() {
+            return None;
+        }
+        let socks = self.server_side_sockets();
+        for (gi, g) in self.gens.iter().enumerate() {
+            if !(g.client_closed || g.shut_wr) || g.admission != Admission::Accepted {
+                continue;
+            }
+            if self.owed(g) || self.outstanding.iter().any(|o| o.gen_idx == Some(gi)) {
+                continue;
+            }
+            if socks.iter().any(|(_, x)| *x == Some(gi)) {
+                return Some(format!(
+                    "c{}g{} has left ({}), all {} requests yielded from it are answered, the epoll descriptor is not readable, and the server still holds its socket: nothing will release it until some unrelated event",
+                    g.client,
+                    g.gen,
+                    if g.client_closed { "closed" } else { "shut down its sending side" },
+                    g.yielded.len()
+                ));
+            }
+        }
+        None
+    }
+
     /// One gated call of requests(): never called when the epoll descriptor is not readable.
     pub fn poll(&mut self) -> PollOut {
         let r = self.poll_inner();
@@ -862,6 +892,19 @@ impl Sim {
         Ok(())
     }
 
+    /// The application replaces the kill switch: a second `add_kill_switch` with a new event descriptor (the
+    /// harness's handle on the old one is closed first, so that the old description really goes away when the
+    /// server drops it). From then on the new one is the one that is signalled.
+    pub fn replace_kill_switch(&mut self) -> Result<(), String> {
+        self.kill = None;
+        let k = EventFd::new(libc::EFD_NONBLOCK).map_err(|e| e.to_string())?;
+        let k2 = k.try_clone().map_err(|e| e.to_string())?;
+        self.kill_fd = k.as_raw_fd();
+        self.server.add_kill_switch(k).map_err(|e| format!("add_kill_switch (second call): {:?}", e))?;
+        self.kill = Some(k2);
+        Ok(())
+    }
+
     pub fn signal_kill(&mut self) {
         self.step += 1;
         if let Some(k) = &self.kill {
@@ -1034,6 +1077,27 @@ pub fn judge_client(g: &GenRec, opts: &JudgeOpts) -> Result<ClientVerdict, (Stri
             RespParse::Complete(r) => r,
             RespParse::Partial => {
                 v.partial_tail = b.len() - p;
+                // a response that was cut short is the last thing a client receives; what there is of its body
+                // still belongs to it (tag, bar, padding), nothing else may follow inside it
+                let tail = &b[p..];
+                if let Some(he) = tail.windows(4).position(|w| w == b"\r\n\r\n") {
+                    if tail.starts_with(b"HTTP/1.1 200 ") || tail.starts_with(b"HTTP/1.0 200 ") {
+                        let body = &tail[he + 4..];
+                        let (tagpart, padding) = match body.iter().position(|c| *c == b'|') {
+                            Some(bar) => (&body[..bar], &body[bar + 1..]),
+                            None => (body, &body[body.len()..]),
+                        };
+                        let prefix = g.tag_prefix();
+                        let tag_ok = if tagpart.len() >= prefix.len() { tagpart.starts_with(prefix.as_bytes()) && tagpart[prefix.len()..].iter().all(|c| c.is_ascii_digit()) } else { prefix.as_bytes().starts_with(tagpart) };
+                        if !tag_ok || !padding.iter().all(|c| *c == b'r') {
+                            let off = padding.iter().position(|c| *c != b'r').map(|i| b.len() - padding.len() + i).unwrap_or(p + he + 4);
+                            return Err((
+                                "malformed-bytes".into(),
+                                format!("c{}g{}: inside a response that was cut short (it starts at offset {}) the client received bytes that are not part of it, from offset {}: {:?}", g.client, g.gen, p, off, crate::util::show(&b[off..b.len().min(off + 80)])),
+                            ));
+                        }
+                    }
+                }
                 break;
             }
             RespParse::Malformed(e) => {
